@@ -4,6 +4,7 @@ import TinsModel.Wire.App.TheoremsDhcp
 import TinsModel.Wire.App.TheoremsDhcpv6
 import TinsModel.Wire.App.TheoremsCodec
 import TinsModel.Wire.App.TheoremsReparse
+import TinsModel.Wire.App.TheoremsApi
 /-
   Per-layer theorems of the App family for the four wire properties (C01 parse_safe, C02 writesOnly, C03 reparse,
   C04 codec inverses).  This module only gathers the per-class files (it is what `Props/C01..C04` import):
@@ -12,6 +13,8 @@ import TinsModel.Wire.App.TheoremsReparse
     TheoremsDhcp    — DHCP (TLV options, cached `size_`)
     TheoremsDhcpv6  — DHCPv6 (TLV options, cached `options_size_`)
     TheoremsReparse — C03: TLV round trips of DHCP / DHCPv6 option lists, write → parse end to end; DHCPv6 invariant
+    TheoremsApi     — C02/C04 for API histories of the fixed-header classes: setters keep the invariant, getters read
+                      back the last value set, other members untouched
     TheoremsCodec   — C04: option look-up after add/remove, typed option codecs of DHCP and DHCPv6
   Every theorem is listed with `#print axioms` in lean/Audit/WireApp.lean.
 -/
